@@ -352,8 +352,9 @@ def lengthKnown (v : Value) : Bool :=
   | .set _, .sset _ ps => ps.length == 1 || Payload.whollyKnownL ps
   | _, _ => true
 
-/-- `if val.IsNull() { val = cty.NullVal(val.Type().WithoutOptionalAttributesDeep()) }` -/
-def stripNull (v : Value) : Value := if v.isNull then Value.null v.ty.stripOpt else v
+/-- `if val.IsNull() { val = cty.NullVal(val.Type().WithoutOptionalAttributesDeep()).WithSameMarks(val) }` -/
+def stripNull (v : Value) : Value :=
+  if v.isNull then (Value.null v.ty.stripOpt).withMarks v.marks else v
 
 def mapRes {α β} (f : α → Res β) : List α → Res (List β)
   | [] => .ok []
@@ -617,7 +618,10 @@ def applyStep (E : Env) (rec : Rec) : Plan → Value → Res Value
   | .tupToTup convs, v =>
     (elemsOf E v).bind fun es => (applyZip rec id convs es).bind fun es' => .ok (tupleVal es')
   | .collToList ety conv, v =>
-    if !lengthKnown v then (elementType v.ty).bind fun ie => .ok (Value.unknown (.list ie))
+    if !lengthKnown v then
+      -- a set holding unknown members: the number of elements of the list is not known
+      if ety.isDyn then (elementType v.ty).bind fun ie => .ok (Value.unknown (.list ie.stripOpt))
+      else .ok (Value.unknown (.list ety.stripOpt))
     else
       (elemsOf E v).bind fun es =>
       (mapRes (fun e => (applyOpt rec conv e).map stripNull) es).bind fun es' =>
